@@ -22,4 +22,17 @@ PROPS = {
         "min_nontrivial": {"quick": 500, "thorough": 5000},
         "technique": "runtime monitoring: recorded call/return histories checked against a sequential model (plain relate) and for response stability",
     },
+    "C07": {
+        "budget": {"quick": 6000, "thorough": 120000},
+        "rule": "same pair generator as C01 (all type pairs, partner derived from the first operand half of the time, lattice offsets/scales); Euclidean.distance through the Geometry enum, through every concrete (A,B) impl, through the legacy EuclideanDistance trait, in both operand orders and for every respelling of either operand, judged against sqrt of the exact rational minimum squared distance over all primitive pairs (0 iff the exact models intersect, incl. containment) within 32·u·max(d, extent); symmetry / typing invariance within 4 ulps. Empty operands are observe-only. Non-trivial = at least one operand has linework; distinct by input digest.",
+        "assumptions": [DOMAIN, "empty operands are outside the statement (observe-only stratum)"],
+        "min_nontrivial": {"quick": 1000, "thorough": 10000},
+    },
+    "C13": {
+        "budget": {"quick": 12000, "thorough": 250000},
+        "rule": "three case kinds in rotation: (algebra) chains of 1-8 integer affine matrices incl. singular ones, compose / compose_many / apply / is_identity / inverse for AffineTransform<f64> and <i64> compared bit-for-bit with an i128 matrix model (inverse entries within 4u, round trip within 16u·S); (trait) every Rotate/Scale/Skew/Translate method and its _mut form on a generated geometry of every type vs the documented matrix about the documented origin (centroid / bounding-box centre / given point) within 8u·S; (commute) an exact map (signed permutation matrix, integer translation up to 2^40, power-of-two scale) applied through affine_transform must give exactly the mapped lattice geometry, and relate / intersects / contains / coordinate_position / is_valid / validation error count must be unchanged, areas / distances / lengths / Hausdorff distance scaled by exactly the factor, convex-hull vertex set and bounding_rect mapped exactly. Non-trivial = chains of >= 2 matrices, non-empty geometries; distinct by digest.",
+        "assumptions": [DOMAIN, "Rect and Triangle rebuild themselves from mapped coordinates (corner re-normalisation, counter-clockwise re-ordering): coordinate-wise comparison of trait results is restricted to order-preserving maps for geometries containing them", "under translations >= 1000 the measure-scaling clause is judged relative to the coordinate magnitude (16u·M² / 16u·M), because algorithms that do not shift to a local origin are not exact there"],
+        "min_nontrivial": {"quick": 1000, "thorough": 10000},
+        "technique": "runtime monitoring: i128 matrix model + metamorphic (exact-map commutation) oracle over observed results",
+    },
 }
